@@ -89,6 +89,9 @@ def check(ctx):
         ctx.check(not hits, "no-nondeterminism", nm, "a %s source is reachable from the API: %s" % (nm, sorted({c for _, f, b, c in hits})),
                   where="; ".join(where(f, b) for _, f, b, c in hits[:3]))
     pc = k5.ptr_casts(prog, crates=("abyssiniandb", "rabuf", "vu64"))
+    from . import poscontrol
+    poscontrol.nondet_control(ctx)
+    poscontrol.regex_control(ctx, "uninit", k5.UNINIT, "uninit_set_len")
     ctx.check(not pc, "no-nondeterminism", "pointer-to-int-casts", "pointer-to-integer cast outside expansions", where="; ".join(where(f, b) for f, b, s in pc[:3]))
     hi = k5.matches(prog, k5.HASH_ITER, crates=("abyssiniandb", "rabuf", "vu64"))
     for fn, b, t in hi:
